@@ -16,7 +16,7 @@ from ..core import canon
 PROPERTY = "C14"
 LEVEL = "model_checking"
 RULE = (
-    "(as built, rounds 4-5: insert positions incl. -len-1, -len-2, len+2; the same CurveItem moved to another position; item assignment under a case variant of an existing name; keys after set_data / insertion) "
+    "(round 8: las[name] for every case variant of a held name that keys() does not hold and for a name never used must raise KeyError in every reached state) (as built, rounds 4-5: insert positions incl. -len-1, -len-2, len+2; the same CurveItem moved to another position; item assignment under a case variant of an existing name; keys after set_data / insertion) "
     "BFS over operation histories (append_curve, insert_curve, delete_curve by ix/mnemonic, "
     "update_curve, replace_curve_item, las[k]=array, las[k]=CurveItem, set_data (+names, "
     "+truncate), las.data=) from three kinds of root (fresh LASFile, LASFile read from a "
